@@ -109,6 +109,8 @@ where
             target:     Arc::downgrade(target),
             poll_fn:    Arc::new(Mutex::new(Some(poll_fn)))
         };
+        #[cfg(desync_verif)]
+        context.poll_fn.verif_observe("F", |poll_fn| if poll_fn.is_some() { "some".to_string() } else { "none".to_string() });
 
         Arc::new(context)
     }
@@ -132,6 +134,8 @@ where
                 async move {
                     // Create a futures context from the context reference
                     let waker   = PipeWaker { context: Mutex::new(Some(Arc::clone(&arc_self))) };
+                    #[cfg(desync_verif)]
+                    waker.context.verif_observe("K", |context| if context.is_some() { "armed".to_string() } else { "spent".to_string() });
                     let waker   = Arc::new(waker);
                     let waker   = task::waker(waker);
 
@@ -297,6 +301,8 @@ where
     let output_stream       = PipeStream::<Output>::new(move || {
         output_desync.take();
     });
+    #[cfg(desync_verif)]
+    output_stream.core.verif_observe("P", |core| format!("{} {} {} {} {} {}", core.pending.len(), core.max_pipe_depth, core.closed, core.notify.is_some(), core.notify_stream_closed.is_some(), core.backpressure_release_notify.is_some()));
 
     // Get the core from the output stream
     let stream_core     = Arc::clone(&output_stream.core);
